@@ -5,6 +5,8 @@ import MidnightZK.Model.C10.Field
 import MidnightZK.Model.C10.Mont
 import MidnightZK.Model.C10.Tower
 import MidnightZK.Model.C10.Batch
+import MidnightZK.Model.C10.BY
+import MidnightZK.Model.C10.Jacobi
 import MidnightZK.Gen.C10Constants
 /-!
 Line-protocol handler of property C10.
@@ -16,7 +18,10 @@ Line-protocol handler of property C10.
 * `tw <Tower> <op> <coeffs…>` — extension-field operation on coefficient vectors;
 * `pl <Field> sum|product|batch_invert <desc>` — batched operation on a list given by a compact
   descriptor (`rep:v:n`, `alt:a:b:n`, `lcg:x0:a:c:n`); `pl <Field> chain <x0> <y> <prog> <n>` —
-  `n` in-place operations applied cyclically from the program string (see `Model/C10/Batch.lean`).
+  `n` in-place operations applied cyclically from the program string (see `Model/C10/Batch.lean`);
+* `by new|jump|fg|de|norm|invert …` — the building blocks and the traced main loop of the
+  Bernstein–Yang inverter at the chunk level, `byv invert <M> <A> <x>` — the same loop on integers
+  (`Model/C10/BY.lean`); `jac approx|binary|run …` — the Jacobi-symbol code (`Model/C10/Jacobi.lean`).
 -/
 namespace MidnightZK.C10.Driver
 open MidnightZK MidnightZK.C10
@@ -258,8 +263,105 @@ def answerPl (f : FieldInfo) (op : String) (args : List String) : String :=
     | _, _, _ => "bad-op"
   | _, _ => "bad-op"
 
+/-! ### Bernstein–Yang inversion and the Jacobi symbol -/
+
+def fmtMat (t : BY.Mat) : String := s!"{t.a},{t.b},{t.c},{t.d}"
+
+def parseMat? (s : String) : Option BY.Mat :=
+  match parseIntList? s with
+  | some [a, b, c, d] => some ⟨a, b, c, d⟩
+  | _ => none
+
+def fmtStep (s : BY.Step) : String :=
+  s!"{s.delta}|{fmtMat s.t}|{fmtHexList s.f}|{fmtHexList s.g}|{fmtHexList s.d}|{fmtHexList s.e}"
+
+def fmtStepV (s : Int × BY.Mat × Int × Int × Int × Int) : String :=
+  let (delta, t, f, g, d, e) := s
+  s!"{delta}|{fmtMat t}|{f}|{g}|{d}|{e}"
+
+def answerBy (op : String) (args : List String) : String :=
+  match op, args with
+  | "new", [l, m, a] =>
+    match l.toNat?, parseNatList? m, parseNatList? a with
+    | some l, some m, some a =>
+      let inv := BY.Inverter.new l m a
+      s!"{fmtHexList inv.modulus} {fmtHexList inv.adjuster} {inv.inverse}"
+    | _, _, _ => "bad-op"
+  | "jump", [f, g, delta] =>
+    match parseNat? f, parseNat? g, parseInt? delta with
+    | some f, some g, some delta =>
+      match BY.jump f g delta with
+      | some (d, t) => s!"{d} {fmtMat t}"
+      | none => "fuel"
+    | _, _, _ => "bad-op"
+  | "fg", [f, g, t] =>
+    match parseNatList? f, parseNatList? g, parseMat? t with
+    | some f, some g, some t =>
+      let (f, g) := BY.cFG f g t
+      s!"{fmtHexList f} {fmtHexList g}"
+    | _, _, _ => "bad-op"
+  | "de", [m, inv, d, e, t] =>
+    match parseNatList? m, parseInt? inv, parseNatList? d, parseNatList? e, parseMat? t with
+    | some m, some inv, some d, some e, some t =>
+      let (d, e) := BY.cDE m inv d e t
+      s!"{fmtHexList d} {fmtHexList e}"
+    | _, _, _, _, _ => "bad-op"
+  | "norm", [m, v, neg] =>
+    match parseNatList? m, parseNatList? v, neg with
+    | some m, some v, "0" => fmtHexList (BY.cNorm m v false)
+    | some m, some v, "1" => fmtHexList (BY.cNorm m v true)
+    | _, _, _ => "bad-op"
+  | "invert", [l, s, m, a, x] =>
+    match l.toNat?, s.toNat?, parseNatList? m, parseNatList? a, parseNatList? x with
+    | some l, some s, some m, some a, some x =>
+      match BY.invert (BY.Inverter.new l m a) l s x with
+      | none => "fuel"
+      | some (r, tr) =>
+        ";".intercalate ((match r with | some r => fmtHexList r | none => "none") :: tr.map fmtStep)
+    | _, _, _, _, _ => "bad-op"
+  | _, _ => "bad-op"
+
+def answerByV (op : String) (args : List String) : String :=
+  match op, args.mapM parseNat? with
+  | "invert", some [m, a, x] =>
+    match BY.invertV m a x with
+    | none => "fuel"
+    | some (r, tr) =>
+      ";".intercalate ((match r with | some r => toString r | none => "none") :: tr.map fmtStepV)
+  | _, _ => "bad-op"
+
+def fmtOStep (s : Jac.OStep) : String :=
+  s!"{fmtHexList s.n}|{fmtHexList s.d}|{toHex s.s.t}|{toHex s.s.a},{toHex s.s.b}|{s.s.u0},{s.s.u1}|{s.s.v0},{s.s.v1}"
+
+def answerJac (op : String) (args : List String) : String :=
+  match op, args with
+  | "approx", [x, y] =>
+    match parseNatList? x, parseNatList? y with
+    | some x, some y =>
+      let (a, b, p) := Jac.approximate x y
+      s!"{toHex a} {toHex b} {fmtBool p}"
+    | _, _ => "bad-op"
+  | "binary", [n, d, t] =>
+    match parseNat? n, parseNat? d, parseNat? t with
+    | some n, some d, some t =>
+      match Jac.jacobinary n d t with
+      | some r => toString r
+      | none => "fuel"
+    | _, _, _ => "bad-op"
+  | "run", [l, n, d] =>
+    match l.toNat?, parseNatList? n, parseNatList? d with
+    | some l, some n, some d =>
+      match Jac.jacobi l n d with
+      | some (r, tr) => ";".intercalate (toString r :: tr.map fmtOStep)
+      | none => "fuel"
+    | _, _, _ => "bad-op"
+  | _, _ => "bad-op"
+
 def answer (line : String) : String :=
   match words line with
+  | "by" :: op :: args => answerBy op args
+  | "byv" :: op :: args => answerByV op args
+  | "jac" :: op :: args => answerJac op args
   | "pl" :: fname :: op :: args =>
     match fieldOf fname with
     | some f => answerPl f op args
